@@ -197,6 +197,38 @@ def raises_table(trees):
     return out
 
 
+def returns_table(trees, methods):
+    """`Class.method` -> source of every `return` expression (source order) for the evaluation / prox methods the model transcribes"""
+    out = []
+    for tree in trees:
+        for n in tree.body:
+            if isinstance(n, ast.ClassDef):
+                for f in n.body:
+                    if isinstance(f, ast.FunctionDef) and f.name in methods:
+                        rets = [ast.unparse(r.value) for r in sorted((w for w in ast.walk(f) if isinstance(w, ast.Return) and w.value is not None),
+                                                                      key=lambda r: r.lineno)]
+                        if rets:
+                            out.append((f"{n.name}.{f.name}", rets))
+            elif isinstance(n, ast.FunctionDef) and not n.name.startswith("_") and "metric" in methods:
+                rets = [ast.unparse(r.value) for r in sorted((w for w in ast.walk(n) if isinstance(w, ast.Return) and w.value is not None), key=lambda r: r.lineno)]
+                out.append(("metric." + n.name, rets))
+    return out
+
+
+def assigns_table(tree, cname, mname):
+    """local assignments `name = expr` of one method (the formulas of SquaredL2Loss.prox / hessian)"""
+    cls = find_class(tree, cname)
+    m = find_method(cls, mname) if cls else None
+    out = []
+    if m is not None:
+        for w in sorted((w for w in ast.walk(m) if isinstance(w, ast.Assign) and len(w.targets) == 1 and isinstance(w.targets[0], ast.Name)), key=lambda w: w.lineno):
+            out.append((f"{cname}.{mname}", w.targets[0].id, ast.unparse(w.value)))
+        for w in ast.walk(m):
+            if isinstance(w, ast.keyword) and w.arg in ("eval_fn", "adj_fn"):
+                out.append((f"{cname}.{mname}", w.arg, ast.unparse(w.value)))
+    return out
+
+
 def prox_classes(trees):
     return [n.name for tree in trees for n in tree.body if isinstance(n, ast.ClassDef) and find_method(n, "prox") is not None]
 
@@ -220,6 +252,11 @@ def read_tables(repo: Path | None = None):
                      + defaults_of(src["tv"]) + defaults_of(src["proxavg"]) + defaults_of(src["metric"], "metric."))
     t["metrics"] = metric_table(src["metric"])
     t["raises"] = raises_table([src["functional"], src["loss"], src["norm"], src["proxavg"]])
+    src["dist"] = ast.parse((repo / "scico/functional/_dist.py").read_text())
+    t["returns"] = (returns_table([src["functional"], src["loss"], src["norm"], src["indicator"], src["dist"], src["tv"], src["proxavg"]],
+                                  {"__call__", "_call_sep", "_call_nonsep", "_l2norm", "prox", "conj_prox"})
+                    + returns_table([src["metric"]], {"metric"}))
+    t["assigns"] = assigns_table(src["loss"], "SquaredL2Loss", "prox") + assigns_table(src["loss"], "SquaredL2Loss", "hessian")
     t["prox_classes"] = prox_classes([src["functional"], src["loss"]])
     t["loss_classes"] = loss_classes(src["loss"])
     return t
@@ -242,6 +279,8 @@ def render(t):
     L.append("def defaults : List (String × String × String) :=\n  [" + ",\n   ".join(f"({lstr(a)}, {lstr(b)}, {lstr(c)})" for a, b, c in t["defaults"]) + "]\n")
     L.append("def metrics : List (String × List String) :=\n  [" + ",\n   ".join(f"({lstr(a)}, [{', '.join(lstr(x) for x in b)}])" for a, b in t["metrics"]) + "]\n")
     L.append("def raises : List (String × List String) :=\n  [" + ",\n   ".join(f"({lstr(a)}, [{', '.join(lstr(x) for x in b)}])" for a, b in t["raises"]) + "]\n")
+    L.append("def returns : List (String × List String) :=\n  [" + ",\n   ".join(f"({lstr(a)}, [{', '.join(lstr(x) for x in b)}])" for a, b in t["returns"]) + "]\n")
+    L.append("def assigns : List (String × String × String) :=\n  [" + ",\n   ".join(f"({lstr(a)}, {lstr(b)}, {lstr(c)})" for a, b, c in t["assigns"]) + "]\n")
     L.append("def proxClasses : List String := [" + ", ".join(lstr(x) for x in t["prox_classes"]) + "]")
     L.append("def lossClasses : List String := [" + ", ".join(lstr(x) for x in t["loss_classes"]) + "]\n")
     L.append("""/-- the constructors compute the flags the model assumes, on every valuation of the conditions they test -/
@@ -266,6 +305,11 @@ theorem metrics_ok : metrics = expectedMetrics := by decide
 
 /-- the modelled argument checks raise the modelled exception classes -/
 theorem raises_ok : subsetOf expectedRaises raises = true := by decide
+
+/-- the formulas the model transcribes are the formulas of the source: `return` expressions of every evaluation / prox method
+    of the modelled classes and of the metrics, and the local formulas of `SquaredL2Loss.prox` / `hessian` -/
+theorem returns_ok : subsetOf expectedReturns returns = true := by decide +kernel
+theorem assigns_ok : subsetOf expectedAssigns assigns = true := by decide +kernel
 
 /-- no other class of `_functional.py` / `loss.py` defines its own `prox`; the loss classes are the modelled ones -/
 theorem classes_ok : proxClasses = expectedProxClasses ∧ lossClasses = expectedLossClasses := by decide
